@@ -152,3 +152,73 @@ def flat(recs):
 
 def longest_pair(pairs):
     return max([len(n) + len(v) for n, v in pairs] + [0])
+
+
+# ---------------------------------------------------------------------------------------------
+# input streams (C02, C05, C18)
+# ---------------------------------------------------------------------------------------------
+ROLE_STREAMS = {RESPONDER: [STDIN], AUTHORIZER: [], FILTER: [STDIN, DATA]}
+
+
+def stream_junk(rng, rid):
+    """records that the stream parser must skip (possibly with a reply) while request rid is active"""
+    r = rng.random()
+    pad = rng.choice([0, 0, 1, 7, 8, 255])
+    other = rng.choice([x for x in [0, 1, 2, 65535, rng.randrange(65536)] if x != rid])
+    if r < 0.3:
+        return record(GETVALUES, 0, gv_body(rng), pad)
+    if r < 0.5:
+        t = rng.choice([0, 12, 13, 100, 255, rng.randrange(12, 256)])
+        return record(t, rng.choice([0, rid, other]), [rng.randrange(256) for _ in range(rng.choice([0, 3, 8, 20]))], pad)
+    if r < 0.6:
+        return record(PARAMS, rid, [rng.randrange(256) for _ in range(rng.choice([0, 5, 30]))], pad)     # stale Params
+    if r < 0.7:
+        return begin(rid, rng.choice([1, 2, 3]), rng.randrange(256), pad)                            # duplicate BeginRequest
+    if r < 0.8:
+        return begin(other, rng.choice([1, 2, 3, 9]), rng.randrange(256), pad)                       # foreign BeginRequest
+    if r < 0.9:
+        return record(rng.choice([STDIN, DATA, ABORT]), other, [rng.randrange(256) for _ in range(rng.choice([0, 4, 12]))], pad)
+    return record(rng.choice([END, STDOUT, STDERR, GETVALUESRESULT, UNKNOWN]), rng.choice([0, rid, other]), [1, 2, 3], pad)
+
+
+def streams_part(rng, rid, role, contents, junk_rate=0.25, cuts_style=None, order=None):
+    """records for the input streams of `role` in order; contents: {type: bytes}.
+    returns list of records"""
+    recs = []
+    for t in (order or ROLE_STREAMS[role]):
+        payload = contents.get(t, [])
+        for r in stream_records(t, rid, payload, cut_list(rng, len(payload), cuts_style), rng):
+            while rng.random() < junk_rate:
+                recs.append(stream_junk(rng, rid))
+            recs.append(r)
+    while rng.random() < junk_rate:
+        recs.append(stream_junk(rng, rid))
+    return recs
+
+
+def stream_content(recs, rid, role, sigma):
+    """reference extraction of stream sigma's bytes from a record list for request (rid, role):
+    returns (bytes, how) with how in {'ended', 'aborted', 'needmore'}; records of earlier streams or not in the role are skipped,
+    the first record of a later stream ends it."""
+    order = ROLE_STREAMS[role]
+    out = []
+    for (t, r, body, pad) in recs:
+        if t in (STDIN, DATA) and r == rid:
+            if sigma is None:
+                continue
+            if t == sigma:
+                if not body:
+                    return out, "ended"
+                out += body
+            elif t in order and sigma in order and order.index(t) > order.index(sigma):
+                return out, "ended"
+            # earlier / not in role: skipped
+        elif t == ABORT and r == rid:
+            return out, "aborted"
+    return out, "needmore"
+
+
+def minimal_preamble(rid, role, flags=1, pairs=()):
+    recs = [begin(rid, role, flags)]
+    recs += stream_records(PARAMS, rid, nv_all(pairs), [])
+    return recs
